@@ -19,7 +19,8 @@ import (
 
 func TestMain(m *testing.M) { engine.Main(m) }
 
-var names = []string{"AAA", "BBB", "CCC", "NEVER"}
+// asset names: plain, and ones whose tail looks like pieces of the ".csv" suffix
+var names = []string{"AAA", "bac", "v.s", "NEVER"}
 
 var day0 = time.Date(2000, 1, 3, 0, 0, 0, 0, time.UTC)
 
